@@ -37,7 +37,7 @@ Fixpoint route_check (mods : list name) (t : table) (ops : list op) (os : list r
 
 Definition lv_eqb (a b : name * Z) : bool := name_eqb (fst a) (fst b) && Z.eqb (snd a) (snd b).
 
-Definition entry_eqb (a b : entry) : bool := name_eqb (e_name a) (e_name b) && Bool.eqb (e_dir a) (e_dir b).
+Definition entry_eqb (a b : entry) : bool := name_eqb (e_name a) (e_name b) && Bool.eqb (e_file a) (e_file b).
 
 (* one rollover: the date returned by time.strftime, whether doRollover raised, the sorted directory afterwards *)
 Record rstep := { s_date : name; s_raised : bool; s_listing : list entry }.
@@ -46,8 +46,8 @@ Fixpoint rot_check (prefix : name) (n : nat) (d : dir) (steps : list rstep) : bo
   match steps with
   | [] => true
   | s :: r =>
-      let '(d', raised) := do_rollover source_slice prefix n d (s_date s) in
-      Bool.eqb raised (s_raised s) && list_eqb entry_eqb (sort d') (s_listing s) && rot_check prefix n d' r
+      let d' := do_rollover source_slice prefix n d (s_date s) in
+      negb (s_raised s) && list_eqb entry_eqb (sort d') (s_listing s) && rot_check prefix n d' r
   end.
 
 Inductive case :=
@@ -72,8 +72,8 @@ Fixpoint route_trace (mods : list name) (t : table) (ops : list op) : list (list
 Fixpoint rot_trace (prefix : name) (n : nat) (d : dir) (steps : list rstep) : list (bool * list entry) :=
   match steps with
   | [] => []
-  | s :: r => let '(d', raised) := do_rollover source_slice prefix n d (s_date s) in
-              (raised, sort d') :: rot_trace prefix n d' r
+  | s :: r => let d' := do_rollover source_slice prefix n d (s_date s) in
+              (false, sort d') :: rot_trace prefix n d' r
   end.
 Inductive model_out :=
 | MRoute (x : list (list delivery * option exn))
